@@ -41,9 +41,16 @@ pub fn run(_env: &Env, run: &Run) -> (Stats, Coverage) {
         for l in [vec![x], vec![0x61, x], vec![x, 0x61], vec![0x41, x], vec![x, 0x41], vec![0xE9, x], vec![x, x], vec![0x65E5, x, 0x61], vec![0x1C5, x], vec![x, 0x1C5], vec![0x130, x], vec![x, 0x130], vec![0x1E9E, x], vec![x, 0x1E9E], vec![x, 0x3A3], vec![0x3A3, x], vec![0x41, 0x3A3, x], vec![x, 0x307], vec![0x49, x, 0x307]] {
             visit(&from_cps(&l), st);
         }
+        let mapped = |c: char| !c.to_lowercase().eq(std::iter::once(c));
         for a in alias_chars(c) {
             visit(&from_cps(&[x, a as u32]), st);
             visit(&from_cps(&[a as u32, x]), st);
+            // far apart / behind a long prefix, wherever the two differ in having a mapping
+            if mapped(c) && !mapped(a) || (mapped(c) && mapped(a) && x < a as u32) {
+                for s in long_pair_strings(c, a) {
+                    visit(&s, st);
+                }
+            }
         }
     }));
 
